@@ -108,6 +108,12 @@ def check(repo: Repo, rep: Report) -> None:
     rule_scheduler_forwarded(rep, "M6-scheduler-choice", repo.fn(M, "from_marbles.subscribe"))
     cs = repo.fn(M, "parse.check_stopped")
     for s_ in sites(cs):
+        if isinstance(s_.node, ast.Raise):
+            mentions_el = [u(e) for e, _p in s_.ctx.guards if any(isinstance(x, ast.Name) and x.id == cs.params[0] for x in ast.walk(e))]
+            rep.ob("M6-scheduler-choice", cs, "check_stopped: anything after a terminal marble is rejected, whatever it is", not mentions_el,
+                   f"the rejection in check_stopped also depends on the element itself ({mentions_el}): a second terminal marble after the first "
+                   f"(`-a-|--#`) is accepted although rejection was requested")
+    for s_ in sites(cs):
         n_ = s_.node
         if isinstance(n_, ast.Compare) and len(n_.ops) == 1 and isinstance(n_.ops[0], (ast.In, ast.NotIn)):
             c_ = n_.comparators[0]
